@@ -89,7 +89,8 @@ def check_sources(ctx):
                                   "dynamic feature %s() defeats the name-based analysis every rule relies on" % n.func.id, n.lineno)
                 # uninitialised memory: np.empty / np.empty_like / np.ndarray(shape) hand back whatever the allocator returns, so a
                 # result computed from an element that was not written first depends on what the process allocated before
-                if len(parts) == 2 and al.get(parts[0], "").split(".")[0] == "numpy" and parts[1] in ("empty", "empty_like", "ndarray"):
+                if len(parts) == 2 and al.get(parts[0], "").split(".")[0] == "numpy" and parts[1] in ("empty", "empty_like", "ndarray") and \
+                        not _fully_overwritten(model, n):
                     ctx.violation("R14-SRC", file, where(model, tree, n, file), norm_src(n),
                                   "np.%s returns uninitialised memory: unless every element is overwritten before it is read the result depends "
                                   "on the allocator's history, not on (seed, arguments, rewards) - use np.zeros / np.full" % parts[1], n.lineno)
@@ -259,6 +260,41 @@ def is_mutable_value(v):
             return False
         return True
     return isinstance(v, MUTABLE_NODES)
+
+
+def _fully_overwritten(model, call):
+    """`a = np.empty(..)` directly followed by a statement that writes every element before anything reads one: `a[:] = v`,
+    `a[...] = v`, `a.fill(v)`, or `for i in range(len(a) | a.size | <the same length expression>): a[i] = v` with an unconditional
+    store as the loop's first statement."""
+    st = model.up(call)
+    if not (isinstance(st, ast.Assign) and len(st.targets) == 1 and isinstance(st.targets[0], ast.Name) and st.value is call):
+        return False
+    a = st.targets[0].id
+    par = model.up(st)
+    nxt = None
+    for f in ("body", "orelse"):
+        b = getattr(par, f, None)
+        if isinstance(b, list) and st in b and b.index(st) + 1 < len(b):
+            nxt = b[b.index(st) + 1]
+    if nxt is None:
+        return False
+    if isinstance(nxt, ast.Assign) and len(nxt.targets) == 1 and isinstance(nxt.targets[0], ast.Subscript) and norm_src(nxt.targets[0].value) == a and \
+            norm_src(nxt.targets[0].slice) in (":", "...", "Ellipsis") and a not in [x.id for x in ast.walk(nxt.value) if isinstance(x, ast.Name)]:
+        return True
+    if isinstance(nxt, ast.Expr) and isinstance(nxt.value, ast.Call) and norm_src(nxt.value.func) == "%s.fill" % a:
+        return True
+    if isinstance(nxt, ast.For) and isinstance(nxt.target, ast.Name) and isinstance(nxt.iter, ast.Call) and norm_src(nxt.iter.func) == "range" and \
+            len(nxt.iter.args) == 1 and nxt.body:
+        n_src = norm_src(nxt.iter.args[0])
+        shape = norm_src(call.args[0]) if call.args else None
+        first = nxt.body[0]
+        if n_src in ("len(%s)" % a, "%s.size" % a, shape) and isinstance(first, ast.Assign) and len(first.targets) == 1 and \
+                isinstance(first.targets[0], ast.Subscript) and norm_src(first.targets[0].value) == a and \
+                norm_src(first.targets[0].slice) == nxt.target.id and \
+                not any(isinstance(x, ast.Name) and x.id == a for x in ast.walk(first.value)) and \
+                not any(isinstance(x, (ast.Break, ast.Continue)) for x in ast.walk(nxt)):
+            return True
+    return False
 
 
 def import_iso(ctx, classes, rule, why):
